@@ -56,7 +56,11 @@ def gen_config(rng, name, it):
     """(ctor options, parameter dict, branch tag)"""
     ctor, par, tag = {}, {}, "regular"
     if name in ("Log", "Reciprocal") or name in POWER_FAMILY:
-        mininu = [1e-10, 1e-10, 1e-3, 1.0][int(rng.integers(0, 4))]
+        # (the lower limit of the shift is a constructor option: the default, larger
+        # ones, and smaller ones down to none at all)
+        mininu = [1e-10, 1e-10, 1e-3, 1.0, 0.0, 1e-14][int(rng.integers(0, 6))]
+        if mininu == 0.0 and name in POWER_FAMILY:
+            mininu = 1e-14
         ctor["mininu"] = mininu
         par["nu"] = float(max(mininu, 10.0 ** rng.uniform(-10, 3))) \
             if it % 5 else mininu
